@@ -62,6 +62,26 @@ def main():
 
         sys.exit(1 if hit else 0)
 
+    if kind == 'e2':
+        from mc import e2, explore
+
+        oracle = explore.load(rec['oracle'])
+        hist   = [tuple(a) for a in rec['hist']]
+        s      = e2.build(rec['cfg'], hist[:-1])
+        ev     = s.step(hist[-1]) if hist else None
+        viols  = oracle(rec['cfg'], s, ev, list(hist)) + (oracle(rec['cfg'], s, None, list(hist)) if ev is not None else [])
+
+        for a in hist if '-v' in sys.argv else ():
+            print(a)
+
+        for v in viols:
+            print(f'{"REPRODUCED" if v["signature"] == rec["signature"] else "other"}: {v["signature"]}: {v["what"]}')
+
+        if not viols:
+            print('no violation on this tree for the recorded history')
+
+        sys.exit(1 if any(v['signature'] == rec['signature'] for v in viols) else 0)
+
     mod = importlib.import_module(f'checks.{rec["property"].lower()}')
     sys.exit(1 if mod.replay(rec) else 0)
 
